@@ -578,6 +578,9 @@ func (env *specEnv) evalCall(x *SCall) TV {
 			}
 		}
 		env.fail("fld: no field %s in %s", fs.V, ts.V)
+	case "openfiles": // number of files opened and not yet closed (ghost counter kept by os.Open / (*os.File).Close)
+		argn(0)
+		return TV{T: env.heap("X|openfiles|Int"), Sort: "Int"}
 	case "wfail": // a write to a writer has failed (ghost set by io.WriteString)
 		argn(0)
 		return TV{T: env.heap("X|wfail|Bool"), Sort: "Bool"}
